@@ -59,6 +59,42 @@ bool check_range(CaseResult &res, const std::vector<K> &keys, const K &q, const 
     return true;
 }
 
+
+/// In 1 case out of 5 the index under test is not freshly constructed: an object already holding an index over OTHER generated data
+/// (large and bimodal for 64-bit keys in half of these cases) is move- or copy-assigned the index of the case's data first. The
+/// search contract is about the data an object holds now, whatever it held before.
+template<typename Index, typename K>
+std::unique_ptr<Index> build_maybe_over_prior(TapeReader &t, const GenOpts &o, const std::vector<K> &keys, CaseResult &res, bool execute) {
+    bool over_prior = t.chance(1, 5);
+    if (!over_prior) return execute ? std::unique_ptr<Index>(new Index(keys.begin(), keys.end())) : nullptr;
+    GenOpts o2 = o;
+    o2.xkeys = nullptr;
+    o2.xthreads = nullptr;
+    o2.xprocs = nullptr;
+    o2.pow2_span_edge = false;
+    o2.span_multiple_edge = 0;
+    o2.allow_giant = false;
+    o2.ef_bimodal = false;
+    o2.force_bimodal = sizeof(K) == 8 && t.chance(1, 2);
+    o2.size_hint = t.chance(1, 2) ? 100 : o.size_hint;
+    KeyMeta m2;
+    const int procs_before = g_fake_procs;
+    std::vector<K> prior = gen_keys<K>(t, o2, m2);
+    bool by_copy = t.chance(1, 2);
+    g_fake_procs = procs_before;
+    if (!execute) return nullptr;
+    const K cap = std::numeric_limits<K>::max() - 1;
+    (void) cap;
+    std::unique_ptr<Index> obj(new Index(prior.begin(), prior.end()));
+    if (by_copy) {
+        Index fresh(keys.begin(), keys.end());
+        *obj = fresh;
+    } else
+        *obj = Index(keys.begin(), keys.end());
+    res.label(by_copy ? "assigned_over_prior_content_by_copy" : "assigned_over_prior_content_by_move");
+    return obj;
+}
+
 inline void common_labels(CaseResult &res, const KeyMeta &meta) {
     res.label(meta.size_class);
     if (meta.chunks > 1) res.label("chunked");
@@ -76,6 +112,7 @@ void fill_desc(const RunCtx &ctx, CaseResult &res, const std::string &head, cons
     if (!xk.empty()) {
         res.xdata.emplace_back("xkeys", xk);
         res.xdata.emplace_back("xthreads", std::to_string(meta.threads));
+            res.xdata.emplace_back("xprocs", std::to_string(meta.procs));
     }
 }
 
@@ -109,24 +146,26 @@ CaseResult run_compressed(const RunCtx &ctx, TapeReader &t, unsigned size_hint) 
     o.size_hint = size_hint;
     o.xkeys = ctx.x("xkeys");
     o.xthreads = ctx.x("xthreads");
+    o.xprocs = ctx.x("xprocs");
     o.allow_giant = ctx.mode != "mem";
+    o.mixed_runs = ctx.mode != "mem";
     std::vector<K> keys = gen_keys<K>(t, o, meta);
     const bool excluded = false; // KF-2 (last key near the numeric maximum) was repaired; nothing is excluded any more
     std::ostringstream head;
     head << "CompressedPGMIndex<" << type_name<K>() << "," << Eps << "," << ER << "," << type_name<F>() << ">";
     fill_desc(ctx, res, head.str(), keys, meta);
-    if (!ctx.execute) return res;
     const bool mem = ctx.mode == "mem";
 
     vf_set_threads(meta.threads);
     using Index = pgm::CompressedPGMIndex<K, Eps, ER, F>;
     std::unique_ptr<Index> idx;
     try {
-        idx.reset(new Index(keys.begin(), keys.end()));
+        idx = build_maybe_over_prior<Index, K>(t, o, keys, res, ctx.execute);
     } catch (const std::exception &e) {
         res.fail(std::string("construction threw on in-domain input: ") + e.what());
         return res;
     }
+    if (!ctx.execute) return res;
     common_labels(res, meta);
     if (excluded) res.label("excluded_known_KF2_last_key_within_16_of_max");
     if (ER > comp_threshold<K>()) res.label("binary_search_routing");
@@ -194,6 +233,7 @@ CaseResult run_bucketing(const RunCtx &ctx, TapeReader &t, unsigned size_hint) {
     o.size_hint = size_hint;
     o.xkeys = ctx.x("xkeys");
     o.xthreads = ctx.x("xthreads");
+    o.xprocs = ctx.x("xprocs");
     o.allow_giant = ctx.mode != "mem";
     o.span_multiple_edge = TLS;
     o.pow2_span_edge = true;
@@ -230,7 +270,6 @@ CaseResult run_bucketing(const RunCtx &ctx, TapeReader &t, unsigned size_hint) {
     std::ostringstream head;
     head << "BucketingPGMIndex<" << type_name<K>() << "," << Eps << "," << TLS << "," << (int) TLB << "," << type_name<F>() << ">";
     fill_desc(ctx, res, head.str(), keys, meta);
-    if (!ctx.execute) return res;
     const bool mem = ctx.mode == "mem";
     const size_t n = keys.size();
 
@@ -238,7 +277,8 @@ CaseResult run_bucketing(const RunCtx &ctx, TapeReader &t, unsigned size_hint) {
     using Index = BucketProbe<K, Eps, TLS, TLB, F>;
     std::unique_ptr<Index> idx;
     try {
-        idx.reset(new Index(keys.begin(), keys.end()));
+        idx = build_maybe_over_prior<Index, K>(t, o, keys, res, ctx.execute);
+        if (!ctx.execute) return res;
     } catch (const std::invalid_argument &e) {
         if (TLB != 0 && std::string(e.what()).find("TopLevelBitSize") != std::string::npos) {
             res.discard = true; // a fixed cell width too narrow for the segment count is rejected by design
@@ -341,6 +381,7 @@ CaseResult run_ef(const RunCtx &ctx, TapeReader &t, unsigned size_hint) {
     o.size_hint = size_hint;
     o.xkeys = ctx.x("xkeys");
     o.xthreads = ctx.x("xthreads");
+    o.xprocs = ctx.x("xprocs");
     o.allow_giant = ctx.mode != "mem";
     o.pow2_span_edge = true;
     o.ef_bimodal = ctx.mode != "mem";
@@ -351,18 +392,18 @@ CaseResult run_ef(const RunCtx &ctx, TapeReader &t, unsigned size_hint) {
     std::ostringstream head;
     head << "EliasFanoPGMIndex<" << type_name<K>() << "," << Eps << "," << type_name<F>() << ">";
     fill_desc(ctx, res, head.str(), keys, meta);
-    if (!ctx.execute) return res;
     const bool mem = ctx.mode == "mem";
 
     vf_set_threads(meta.threads);
     using Index = EFProbe<K, Eps, F>;
     std::unique_ptr<Index> idx;
     try {
-        idx.reset(new Index(keys.begin(), keys.end()));
+        idx = build_maybe_over_prior<Index, K>(t, o, keys, res, ctx.execute);
     } catch (const std::exception &e) {
         res.fail(std::string("construction threw on in-domain input: ") + e.what());
         return res;
     }
+    if (!ctx.execute) return res;
     common_labels(res, meta);
     if (excluded) res.label("excluded_known_KF3_u64_first0_last_maxm1");
     if (meta.pow2_edge) res.label("ef_universe_at_pow2_edge");
